@@ -9,12 +9,16 @@ import optrun
 from optmodel import parse_observed
 
 PROP = "C14"
+CONCURRENT = "parse"   # extra phase: lib/mtindep.py
 LEVEL = "exploration"
 RULE = ("sequences of 2-6 argument vectors (successes and every rejection class, environment "
         "changed between calls in a third of them) parsed on one parser object, each later "
         "parse compared with a freshly built identical parser; distinct = distinct "
         "(declaration, sequence) pairs in which at least one parse before the compared one "
-        "touched state (set a value, counted a toggle, collected a positional or failed)")
+        "touched state (set a value, counted a toggle, collected a positional or failed); plus a scale part: "
+        "parsers with 17 ... 513 options in one group and sequences of 260 (thorough 700) calls; "
+        "a concurrent phase (lib/mtindep.py) repeats fixed calls from 2-16 threads on thread-private parsers "
+        "under ThreadSanitizer and compares with the serial results")
 
 ENVS = [optgen.ENVP + b"A", optgen.ENVP + b"B", optgen.ENVP + b"C"]
 ENV_VALUES = [b"envval", b"1", b"no", b"a;b", b"TRUE"]
@@ -89,6 +93,41 @@ def gen(tier, seed, chunk, nchunks_):
                 first = argv
             steps.append({"env": envops, "argv": argv})
         cases.append({"decl": d, "steps": steps})
+    # scale: many options in one group (beyond 8- and 16-bit counters) and long call sequences
+    for k in range(3 if tier == "quick" else 8):
+        n = rng.choice([17, 65, 255, 256, 257, 300, 513])
+        opts = []
+        for i in range(n):
+            kind = "omt"[i % 3] if i < n - 6 else rng.choice("omt")
+            nm = b"opt%d" % i
+            if kind == "o":
+                opts.append(optgen.O(nm, default=b"dflt" if i % 2 else None))
+            elif kind == "m":
+                opts.append(optgen.M(nm, default=[b"d"] if i % 4 == 1 else None))
+            else:
+                opts.append(optgen.T(nm))
+        d = optgen.D(opts, pos="inf", label="%d-options-in-one-group" % n)
+
+        def touch(i):
+            o = opts[i]
+            return [b"--" + o["name"]] if o["kind"] == "t" else [b"--" + o["name"] + b"=late"]
+        idx = [n - 1, n - 2, (n % 256) % n, (n - 1) % 256, 0, n // 2, rng.randrange(n), rng.randrange(n)]
+        steps = []
+        for s_ in range(rng.randint(3, 5)):
+            argv = []
+            for i in rng.sample(idx, rng.randint(1, 3)):
+                argv += touch(i)
+            steps.append({"env": [], "argv": argv if rng.random() < 0.8 else []})
+        steps.insert(rng.randrange(len(steps)), {"env": [], "argv": [b"--nope"]})
+        cases.append({"decl": d, "steps": steps, "scale": "options>=%d" % max(x for x in [17, 65, 255, 256, 257] if x <= n)})
+    if chunk % 8 == 0:
+        d = decls[-1]
+        pool = optgen.flat_pool(optgen.token_pool(d))
+        benign = optgen.benign_tokens(d)
+        nseq = 260 if tier == "quick" else 700
+        cases.append({"decl": d, "scale": "calls>=%d" % nseq,
+                      "steps": [{"env": [], "argv": optgen.rand_argv(rng, pool, benign, 3, p_benign=0.9)
+                                 if rng.random() < 0.9 else []} for _ in range(nseq)]})
     return cases
 
 
@@ -132,6 +171,8 @@ def evaluate(case, lines, S):
         S.inconc.append("unexpected driver output: %d parse lines for %d steps" % (len(plines), n))
         return
     long_lived, fresh = plines[:n], plines[n:]
+    if case.get("scale"):
+        S.counters["scale:" + case["scale"]] += 1
     touched = False
     for k in range(n):
         if k > 0:
@@ -183,6 +224,10 @@ def finish(run, S, tier):
     for cell in ("ok->ok", "ok->reject", "reject->ok", "reject->reject"):
         if S.counters.get("matrix:" + cell, 0) == 0:
             run.inconc("transition cell %s was never exercised" % cell)
+    if not any(k.startswith("scale:options>=25") for k in S.counters):
+        run.inconc("no parser with 255 or more options was exercised")
+    if not any(k.startswith("scale:calls") for k in S.counters):
+        run.inconc("no long call sequence was exercised")
     return {"later_parses_compared": S.counters.get("later-parses-compared", 0)}
 
 
